@@ -163,6 +163,19 @@ def nested_model(kind, n):
                            '</encapsulatedLogic>%s</businessKnowledgeModel>' % (i, j, i, j, i, j, lit % "p", req))
         body = "".join(out) + ('<decision name="d" id="d"><variable name="d"/><knowledgeRequirement><requiredKnowledge href="#b0_0"/></knowledgeRequirement>%s</decision>'
                                % (lit % "b0_0(1)"))
+    elif kind.startswith("wide-table:"):
+        # one decision table with n rules that all match (constant input 1, entries `-` or `1`), outputs 0..4 in a scrambled order of which
+        # only 1, 2, 3 are listed as output values: every hit policy has to cope with many matches, ties and unlisted outputs
+        hp = kind.split(":", 1)[1]
+        hit, agg = {"U": ("UNIQUE", None), "A": ("ANY", None), "P": ("PRIORITY", None), "F": ("FIRST", None), "R": ("RULE ORDER", None),
+                    "O": ("OUTPUT ORDER", None), "C": ("COLLECT", None), "C+": ("COLLECT", "SUM"), "C<": ("COLLECT", "MIN"),
+                    "C>": ("COLLECT", "MAX"), "C#": ("COLLECT", "COUNT")}[hp]
+        rules = "".join("<rule><inputEntry><text>%s</text></inputEntry><outputEntry><text>%d</text></outputEntry></rule>" % (
+            "-" if i % 3 else "1", (i * 7 + i // 5) % 5) for i in range(n))
+        table = ('<decisionTable hitPolicy="%s"%s><input><inputExpression typeRef="number"><text>1</text></inputExpression></input>'
+                 '<output typeRef="number"><outputValues><text>1, 2, 3</text></outputValues></output>%s</decisionTable>' % (
+                     hit, ' aggregation="%s"' % agg if agg else "", rules))
+        body = '<decision name="d" id="d"><variable name="d"/>%s</decision>' % table
     elif kind == "itemdef-lattice":
         w = LATTICE_WIDTH
         out = []
@@ -476,7 +489,8 @@ def describe(case):
     if "nest" in case:
         return "generated model with %s nested %d deep" % (case["nest"], case["depth"])
     if "graph" in case:
-        return "generated valid model: %s of %d %s%s" % (case["graph"], case["depth"], "layers x %d" % LATTICE_WIDTH if "lattice" in case["graph"] else "elements",
+        return "generated valid model: %s of %d %s%s" % (case["graph"], case["depth"], "layers x %d" % LATTICE_WIDTH if "lattice" in case["graph"] else
+                                                       "always-matching rules" if "table" in case["graph"] else "elements",
                                                        " (evaluator built, nothing invoked)" if case.get("build_only") else " (built, every invocable invoked)")
     doc = load_base(case["base"])[0]
     where = case["base"].get("file") or "generated model %s" % case["base"]["gen"]
@@ -732,6 +746,9 @@ def graph_cases(ctx):
         yield {"graph": kind, "depth": 6}
     for n in (12, 24):
         yield {"graph": "decision-lattice", "depth": n, "build_only": True}
+    for hp in ("U", "A", "P", "F", "R", "O", "C", "C+", "C<", "C>", "C#"):
+        for n in (5, 20, 21, 22, 40, 64, 200):
+            yield {"graph": "wide-table:" + hp, "depth": n}
     if ctx.thorough():
         # open findings (exponential in the number of layers / recursion as deep as the chain): shown, not searched further
         yield {"graph": "decision-chain", "depth": 20000}
